@@ -271,6 +271,28 @@ def zero_bound_case():
   return fn
 
 
+def integer_bounds_case():
+  """NOT solver-decided (dtype handling is C-level): bounds given as integers (list or int array) give the same model as the same numbers
+  in float64 -- the slack-adjusted bounds are updated with non-integer values in every projection"""
+  def fn(ctx):
+    from metric_learn import ITML
+    rs = np.random.RandomState(3)
+    X = rs.randn(30, 3) * 2
+    idx = np.array([rs.choice(30, 2, replace=False) for _ in range(16)])
+    P, y = X[idx], np.array([1, -1] * 8)
+    for lo, hi in ((2, 9), (1, 3), (1, 20)):
+      for gamma in (1.0, 10.0):
+        with warnings.catch_warnings():
+          warnings.simplefilter('ignore')
+          ref = ITML(gamma=gamma, max_iter=20).fit(P, y, bounds=[float(lo), float(hi)])
+          for nm, b in (('list', [lo, hi]), ('int64_array', np.array([lo, hi])), ('int32_array', np.array([lo, hi], dtype=np.int32))):
+            b_keep = np.array(b).copy()
+            est = ITML(gamma=gamma, max_iter=20).fit(P, y, bounds=b)
+            ctx.require('integer_bounds_%s_same_model' % nm, ctx.cond(np.allclose(est.components_, ref.components_, rtol=1e-7, atol=1e-9)))
+            ctx.require('integer_bounds_%s_untouched' % nm, ctx.cond(np.array_equal(np.array(b), b_keep)))
+  return fn
+
+
 def cases(tier, seed):
   Q, T = ('quick', 'thorough'), ('thorough',)
   out = []
@@ -288,6 +310,8 @@ def cases(tier, seed):
   out.append(case('prior_array_untouched', prior_array_untouched_case(), FUNCS,
                   '1x1 arbitrary positive prior array, one positive pair at arbitrary distance (bound violated or not), one sweep', cost=3))
   out.append(case('singular_prior', singular_prior_case(), FUNCS, 'rank-one PSD 2x2 prior [[a^2,ab],[ab,b^2]], a,b arbitrary', cost=5))
+  out.append(case('integer_bounds', integer_bounds_case(), FUNCS, 'one data set, integer bounds as list / int64 / int32 array vs float64 (concrete, sampled; not solver-decided)',
+                  concrete_only=True, validate=1, cost=2))
   out.append(case('zero_bound', zero_bound_case(), FUNCS, 'one bound exactly 0, the other arbitrary > 0', cost=2))
   return out
 
